@@ -54,7 +54,7 @@ def plain(tag):
     return S(tag + " nothing here")
 
 
-PLACEMENTS = ["top_default", "only_other_locale", "nested_subkeys", "second_namespace", "in_range_branch", "in_plural_form",
+PLACEMENTS = ["same_variable_plain_in_default", "on_plural_count", "on_range_count", "top_default", "only_other_locale", "nested_subkeys", "second_namespace", "in_range_branch", "in_plural_form",
               "in_component", "fk_argument", "via_fk_target", "other_locale_in_subkeys_of_namespace"]
 
 
@@ -63,6 +63,25 @@ def project_for(fam, placement):
     locs = ["en", "fr", "de"]
     exp = {FAMILY_OPTION[fam]} - {None}
     u = lambda l: unit(fam, l)
+    if placement == "same_variable_plain_in_default":
+        # the default locale (and one more) shows the same variable bare; only a later locale declines / formats it
+        if fam == "none":
+            return None, None
+        var = "count" if fam.startswith("plural") else "v"
+        bare = lambda l: S(l + " ", V(var), " item(s)")
+        files = {l: {"p": plain(l), "items": (u(l) if l == "de" else bare(l))} for l in locs}
+        return Project("en", locs, files), exp
+    if placement == "on_plural_count":
+        # the only use of the formatter is on the count of a plural
+        if fam.startswith("plural") or fam == "none":
+            return None, None
+        files = {l: {"p": plain(l), "pl": PLURAL("cardinal", {"one": S(l + " ", V("count", fmt(fam)), " one"), "other": S(l + " ", V("count", fmt(fam)), " many")})} for l in locs}
+        return Project("en", locs, files), exp | {"Plurals"}
+    if placement == "on_range_count":
+        if fam not in ("number", "currency"):
+            return None, None
+        files = {l: {"r": RANGE("u32", [([("exact", 0)], S(l + " none")), ("fallback", S(l + " ", V("count", fmt(fam)), " things"))])} for l in locs}
+        return Project("en", locs, files), exp
     if placement == "top_default":
         files = {l: {"k": u(l), "p": plain(l)} for l in locs}
         return Project("en", locs, files), exp
@@ -138,7 +157,7 @@ def concrete_cases(tier, seed):
         # every family and every placement at least once, rotating with the seed
         keep = []
         for i, (c, e) in enumerate(cases):
-            if c.tag.startswith("c20_two") or (i + seed) % 3 == 0 or "other_locale" in c.tag or "fk" in c.tag:
+            if c.tag.startswith("c20_two") or (i + seed) % 3 == 0 or "other_locale" in c.tag or "fk" in c.tag or "same_variable" in c.tag or "_count" in c.tag:
                 keep.append((c, e))
         cases = keep
     return cases
@@ -375,6 +394,88 @@ def decide_kernel(mir, shape, timeout_ms=30000, namespaces=False):
     return res
 
 
+CODE_FMT = {1: "number", 2: "date", 3: "time", 4: "datetime", 5: "list", 6: "currency"}
+
+
+def project_from_model(shape, namespaces, assignment):
+    """A translation project whose key tree has the content of a kernel counterexample -> (Project, expected options)."""
+    expected = set()
+
+    def val(name, default=0):
+        v = assignment.get(name, default)
+        return (v in (True, "True")) if isinstance(default, bool) else int(v)
+
+    def occ(var, codes):
+        out = []
+        for c in codes or [0]:
+            out += [" ", V(var, fmt(CODE_FMT[c])) if c else V(var)]
+        return out
+
+    def tree(sh, prefix):
+        d = {}
+        for i, e in enumerate(sh):
+            name = "%s_%d" % (prefix, i)
+            key = "k%d" % i
+            if e[0] == "subkeys":
+                sub = tree(e[1], name)
+                d[key] = SUB(sub if sub else {"empty_group_filler": S("x")})
+                continue
+            if val(name + "_interpol_or_lit") == 1:
+                d[key] = S("literal " + name)
+                continue
+            vars_ = []
+            for vi, nf in enumerate(e[1]):
+                counts = val("%s_v%d_counts" % (name, vi), False)
+                rp = val("%s_v%d_range_or_plural" % (name, vi))
+                codes = [val("%s_v%d_formatter_%d" % (name, vi, k)) for k in range(nf)]
+                vars_.append((vi, counts and rp == 1, counts and rp == 0, codes))
+                for c in codes:
+                    if c:
+                        expected.add(FORMATTER_OPTION[c])
+            plural = next((v for v in vars_ if v[1]), None)
+            ranged = next((v for v in vars_ if v[2]), None) if plural is None else None
+            parts = ["text " + name]
+            for vi, is_pl, is_rg, codes in vars_:
+                var = "count" if ((plural and vi == plural[0]) or (ranged and vi == ranged[0])) else "v%d" % vi
+                parts += occ(var, codes)
+            if plural:
+                expected.add("Plurals")
+                d[key] = PLURAL("cardinal", {"one": S(*(parts + [" one"])), "other": S(*(parts + [" other"]))})
+            elif ranged:
+                d[key] = RANGE("u32", [([("exact", 0)], S("none " + name)), ("fallback", S(*parts))])
+            else:
+                d[key] = S(*parts) if vars_ else S("text " + name + " ", V("plain_var"))
+        return d
+
+    locs = ["en", "fr"]
+    if namespaces:
+        names = ["ns%d" % i for i in range(len(shape))]
+        files = {}
+        for ni, sh in enumerate(shape):
+            t = tree(sh, "ns%d" % ni)
+            files[names[ni]] = {l: (t if t else {"filler": S("x")}) for l in locs}
+        return Project("en", locs, files, namespaces=names), expected
+    t = tree(shape, "t")
+    return Project("en", locs, {l: (t if t else {"filler": S("x")}) for l in locs}), expected
+
+
+def replay_kernel(r):
+    shape = json.loads(r["shape"])
+
+    def tup(x):
+        return [tuple([e[0], tup(e[1]) if e[0] == "subkeys" else e[1]]) for e in x]
+    shape_t = [tup(x) for x in shape] if r["namespaces"] else tup(shape)
+    proj, exp = project_from_model(shape_t, r["namespaces"], r["model"]["assignment"])
+    d = os.path.join(hostrun.VERIF, "work", "C20", "kernel_model")
+    if os.path.isdir(d):
+        shutil.rmtree(d)
+    proj.write(d)
+    res = run_bhost_options([d]).get(d)
+    if not res or res.get("status") != "ok":
+        return None, {"dir": d, "helper": res}
+    return set(res["options"]) != exp, {"dir": d, "options": res["options"], "expected_options": sorted(exp)}
+
+
 NS_SHAPES_QUICK = [
     [[("value", [0])], [("value", [1])]],
     [[("subkeys", [("value", [1])])], [("value", [])], [("value", [1])]],
@@ -420,15 +521,24 @@ def run(tier, seed):
     inconclusive = kinc + inconclusive
     known = report.load_known()
     violations = 0
-    if sat:
-        # a failing kernel claim is a claim about the fold only; it becomes a VIOLATION when the real helper shows it
-        if bad:
-            pass            # reported below with the project that shows it
-        else:
-            for r in sat[:2]:
-                path = report.write_replay(prop, "kernel_%d" % (len(r["shape"]) % 1000), r)
-                print("UNCONFIRMED property=C20 find_used_datakey differs from the statement on a symbolic tree, but no generated project shows it (%s)" % path)
-            inconclusive.append("kernel counterexample not reproduced by the concrete stage")
+    confirmed_kernel = 0
+    for r in sat[:3]:
+        # a kernel counterexample becomes a VIOLATION when the real helper shows it on a project with that content
+        try:
+            ok, info = replay_kernel(r) if "assignment" in r.get("model", {}) else (None, "no tree content in the model")
+        except Exception as e:
+            ok, info = None, "replay failed: %s" % str(e)[-300:]
+        path = report.write_replay(prop, "kernel_%d" % (abs(hash(r["shape"])) % 100000), dict(r, native=info, how_to_replay="echo <dir> | bhost/target/debug/verif-bhost options"))
+        if ok:
+            print("VIOLATION property=C20 replay=%s" % path)
+            print("  find_used_datakey on a tree of shape %s: %s" % (r["shape"], json.dumps(info)[:200]))
+            violations_k = True
+            confirmed_kernel += 1
+        elif not bad:
+            print("UNCONFIRMED property=C20 find_used_datakey differs from the statement on a symbolic tree, the project built from the model does not show it (%s)" % path)
+    if sat and not confirmed_kernel and not bad:
+        inconclusive.append("kernel counterexample not reproduced natively")
+    violations += confirmed_kernel
     for b in bad:
         sig = {"engine": "N", "case": b["case"]}
         k = report.matches(sig, known, prop)
